@@ -2,6 +2,7 @@ package props
 
 import (
 	"encoding/json"
+	"fmt"
 	"strings"
 	"time"
 
@@ -254,6 +255,15 @@ func (g *G) genPnftGenesis(cdc codec.JSONCodec, lax bool) json.RawMessage {
 			}
 			gs.Pnfts = append(gs.Pnfts, &pnfttypes.Pnft{DenomId: id, Id: tid, Name: "t", Description: "", Uri: pick(g, "gen-turi", []string{"", "u"}),
 				Data: pick(g, "gen-tdata", []string{"", "x"}), Creator: owner("gen-token-creator", true), Owner: owner("gen-token-owner", false), CreatedAt: at})
+		}
+	}
+	if g.chance("gen-big-holding", g.bias("big-listing", 15)) {
+		// one owner holds more tokens of one denom than any default page size
+		id := "big"
+		holder := acct("gen-big-holder")
+		gs.Denoms = append(gs.Denoms, &pnfttypes.Denom{Id: id, Name: "n", Symbol: "S", Owner: holder})
+		for j := 0; j < 101+g.intn("gen-big-n", 40); j++ {
+			gs.Pnfts = append(gs.Pnfts, &pnfttypes.Pnft{DenomId: id, Id: fmt.Sprintf("t%03d", j), Name: "t", Creator: holder, Owner: holder, CreatedAt: created})
 		}
 	}
 	bz, err := cdc.MarshalJSON(gs)
